@@ -11,3 +11,13 @@ func verifSubmitWindow(w *WorkerPool) {
 		hook(w)
 	}
 }
+
+// VerifStartHook, when set, is called by Start between waiting for a previous shutdown and taking the lock
+// (verification builds only).
+var VerifStartHook func(w *WorkerPool)
+
+func verifStartWindow(w *WorkerPool) {
+	if hook := VerifStartHook; hook != nil {
+		hook(w)
+	}
+}
